@@ -11,6 +11,7 @@ import (
 	"sort"
 	"strconv"
 	"strings"
+	"time"
 
 	"github.com/bartossh/Computantis/src/accountant"
 	"github.com/bartossh/Computantis/src/spice"
@@ -37,6 +38,7 @@ type Cfg struct {
 	TrustedCraf     []TxSpec // vertices sealed by the trusted sealer T
 	Truncate        bool
 	TruncCancel     []int // C07: additionally offer truncations cancelled at the k-th context poll (once per node)
+	Wait            bool  // offer (once) the event "five minutes pass" while some vertex is parked
 	ProposeCancel   []int // additionally offer each proposal with a context that reports cancellation from its k-th poll on (once per transaction)
 	Tick            bool
 	Dup             bool // allow one duplicate delivery per (node, vertex)
@@ -69,8 +71,9 @@ type Model struct {
 	// retries were used up; the admission guarantee of C13 is only demanded inside that budget
 	overBudget     bool
 	cancelledTrunc map[int]bool // a cancelled (partial) truncation happened on this node
+	waited         bool
 	cancelTried    map[string]bool // a proposal of this transaction with a cancelled context was made
-	synced         string       // C14: "<variant>=<result>" once a sync event ran (terminal)
+	synced         string          // C14: "<variant>=<result>" once a sync event ran (terminal)
 	syncSrc        int
 }
 
@@ -110,6 +113,7 @@ func (m *Model) Init() {
 	m.overBudget = false
 	m.cancelledTrunc = map[int]bool{}
 	m.cancelTried = map[string]bool{}
+	m.waited = false
 	m.synced = ""
 	m.pre = nil
 	for _, lists := range [][]TxSpec{m.Cfg.Menu, m.Cfg.Crafted, m.Cfg.TrustedCraf, m.Cfg.Hidden} {
@@ -232,6 +236,14 @@ func (m *Model) Enabled() []string {
 			}
 		}
 	}
+	if m.Cfg.Wait && !m.waited {
+		for _, n := range m.nodes {
+			if len(n.Book.VerifSnapshot().Parked) > 0 {
+				out = append(out, "W")
+				break
+			}
+		}
+	}
 	return out
 }
 
@@ -332,6 +344,11 @@ func (m *Model) Apply(e string) string {
 		m.produced = append(m.produced, v)
 		m.delivered[fmt.Sprintf("%d/%d", i, len(m.produced)-1)]++
 		return world.ErrClass(m.W.Deliver(ctx, i, v))
+	case "W":
+		// time passes: nothing the ledger holds expires with time, so this must change no decision
+		m.waited = true
+		vsched.AdvanceClock(5 * time.Minute)
+		return "ok"
 	case "TC":
 		i, _ := strconv.Atoi(p[1])
 		k, _ := strconv.Atoi(p[2])
@@ -603,7 +620,7 @@ func (m *Model) fullKey(vs []view) string {
 		tr = append(tr, fmt.Sprintf("%d:%d", i, n))
 	}
 	sort.Strings(tr)
-	return strings.Join(parts, " ") + " PROD[" + strings.Join(prod, " ") + "] PROP[" + strings.Join(prop, " ") + "] CR[" + strings.Join(cr, " ") + "] TR[" + strings.Join(tr, " ") + "]" + fmt.Sprintf(" OB=%v SYNC=%s CT=%v PC=%v", m.overBudget, m.synced, len(m.cancelledTrunc), sortedKeys(m.cancelTried))
+	return strings.Join(parts, " ") + " PROD[" + strings.Join(prod, " ") + "] PROP[" + strings.Join(prop, " ") + "] CR[" + strings.Join(cr, " ") + "] TR[" + strings.Join(tr, " ") + "]" + fmt.Sprintf(" OB=%v SYNC=%s CT=%v PC=%v W=%v", m.overBudget, m.synced, len(m.cancelledTrunc), sortedKeys(m.cancelTried), m.waited)
 }
 
 // Key returns the canonical key (hashed) of the whole world.
